@@ -1061,6 +1061,10 @@ func (t *tree) parseMapLiteral(first item, expr ast.Node) ast.Node {
 	var items = make(map[string]ast.Node)
 	var key = firstKey.Value
 	for {
+		if _, ok := items[key]; ok {
+			// (the earlier value would be dropped, and whatever it refers to with it.)
+			t.errorf("map literal has the key %q twice", key)
+		}
 		items[key] = t.parseExpr(0)
 		next := t.next()
 		if next.typ == itemRightBracket {
